@@ -38,6 +38,11 @@ func (r *resendContext) later(msg MessagePlaintext, opaque ...interface{}) {
 		return
 	}
 
+	if len(msg) == 0 {
+		// heartbeats and TLV-only messages carry no user text: nothing to resend
+		return
+	}
+
 	r.messages.Lock()
 	defer r.messages.Unlock()
 
